@@ -18,8 +18,8 @@ static int cm_isread = 0;         /* the current message came from a reader (msg
 
 void frame_reset(void)
    {
-   if (cm) bufr_free_message(cm);
-   if (lm) bufr_free_message(lm);
+   if (cm && !bvp_poisoned) bufr_free_message(cm);
+   if (lm && !bvp_poisoned) bufr_free_message(lm);
    cm = lm = NULL;
    dirty = 1;
    cm_isread = 0;
